@@ -86,12 +86,13 @@ func verifC12(tlsActive bool) {
 		hello = "LHLO"
 	}
 	// one probe per run
-	probe := verifChoice(10)
+	probe := verifChoice(11)
 	probes := []string{
 		"MAIL FROM:<a@v> SMTPUTF8", "MAIL FROM:<a@v> REQUIRETLS", "MAIL FROM:<a@v> BODY=BINARYMIME",
 		"MAIL FROM:<a@v> RET=FULL", "MAIL FROM:<a@v> ENVID=x", "MAIL FROM:<a@v> SIZE=10 BODY=8BITMIME",
 		"STARTTLS", "MAIL FROM:<a@v>\r\nRCPT TO:<b@v> NOTIFY=NEVER", "MAIL FROM:<a@v>\r\nRCPT TO:<b@v> ORCPT=rfc822;x",
 		"MAIL FROM:<a@v>\r\nRCPT TO:<b@v> RRVS=2014-04-03T23:01:00Z",
+		"MAIL FROM:<a@v>\r\nRCPT TO:<b@v> RRVS=2014-04-03T23:01:00Z;C",
 	}
 	in := hello + " c\r\n" + probes[probe] + "\r\n"
 	vc := &vconn{in: []byte(in), final: io.EOF, tlsIn: []byte(in), tlsFinal: io.EOF}
@@ -129,7 +130,7 @@ func verifC12(tlsActive bool) {
 	verifObserve("c12", len(eh.lines), probe, reps[len(reps)-1].code)
 	// probe outcome
 	last := reps[len(reps)-1]
-	enabled := []bool{cfg.utf8, cfg.reqtls, cfg.binmime, cfg.dsn, cfg.dsn, true, cfg.tls == 1, cfg.dsn, cfg.dsn, cfg.rrvs}[probe]
+	enabled := []bool{cfg.utf8, cfg.reqtls, cfg.binmime, cfg.dsn, cfg.dsn, true, cfg.tls == 1, cfg.dsn, cfg.dsn, cfg.rrvs, cfg.rrvs}[probe]
 	if enabled {
 		verifReach("C12.probe-enabled")
 		if probe == 6 {
